@@ -1,5 +1,6 @@
 import WfProofs.PolicyLemmas
 import WfProofs.PolicyBudget
+import WfProofs.RunnerAcct
 import WfProofs.EngineReduce
 import WfProofs.EngineWaitUnrepaired
 /-!
@@ -365,3 +366,306 @@ example : C05.executions { retry := none, wait := waitFixed 1, stop := C05.tree2
 example : C05.executions { retry := none, wait := waitFixed 1, stop := C05.tree2.eval } (fun k => 12 * k) 7 (fun _ => 0) 20 1 = 2 := by decide +kernel
 example : Policy.thr (5 / 2) = 3 := by decide +kernel
 example : C05.executions { retry := none, wait := waitFixed 1, stop := stopAfterDelay 5 } (fun k => 2 * k) 7 (fun _ => 0) 20 1 = 3 := by decide +kernel
+
+/-! ## every reachable state of the runner, every schedule
+
+`Engine.AcctInv` (`WfProofs/EngineAcct.lean`, `RunnerAcct.lean`): every attempt record anywhere — queued, in progress, kept
+in a waiter, in the tick buffer, the mailbox, the timer heap — with retry number `k ≠ 0` carries the first-attempt time, the
+time and exception of its last failure, ordered on the clock, and **was granted by the step's policy at exactly these
+numbers**; every `WorkflowFailedEvent` on the stream and every `StepFailedEvent` the reducer creates reports
+`attempts = k + 1`, `elapsed = failed_at − first_attempt_at ≥ 0` and was issued because the policy refused at exactly these
+numbers.  Preserved by every action of the runner from a fresh or resumed start, for every configuration and policy
+(clock assumption: failures are stamped with the runner's clock; other parties send fresh attempts). -/
+
+/-- the start of a fresh run is accounted for -/
+theorem C05_accounting_init (cfg : Cfg) (pol : Policy) (now : Int) (hnow : 0 < now) (start : Option Ev) (timeout : Option Nat) :
+    AcctInv cfg pol (Runner.init cfg initState now start timeout) :=
+  init_acct cfg pol initState now hnow (acctSt_init cfg pol now) start timeout
+
+/-- … and so is a run resumed from any accounted state (a serialised context) -/
+theorem C05_accounting_init_resumed (cfg : Cfg) (pol : Policy) (st0 : State) (now : Int) (hnow : 0 < now)
+    (h0 : AcctSt cfg pol now st0) (start : Option Ev) (timeout : Option Nat) :
+    AcctInv cfg pol (Runner.init cfg st0 now start timeout) :=
+  init_acct cfg pol st0 now hnow h0 start timeout
+
+/-- **the accounting invariant holds in every reachable state**, for every admissible schedule -/
+theorem C05_accounting_invariant (cfg : Cfg) (pol : Policy) (r0 : Runner) (h0 : AcctInv cfg pol r0) (acts : List Act)
+    (hs : AcctSched cfg pol r0 acts) : AcctInv cfg pol (Runner.run cfg pol r0 acts) :=
+  run_acct cfg pol acts r0 hs h0
+
+/-- **`retry_info()` material in every reachable state**: an in-progress invocation with retry number `0` has no previous
+exception and no failure time; one with retry number `k ≠ 0` has both, its first attempt began at a positive clock reading
+not after that failure, the failure is not in the future, and the step's policy granted exactly this retry -/
+theorem C05_retry_records_wellformed (cfg : Cfg) (pol : Policy) (r0 : Runner) (h0 : AcctInv cfg pol r0) (acts : List Act)
+    (hs : AcctSched cfg pol r0 acts) (s : Nat) (ip : InProg)
+    (hip : ip ∈ ((Runner.run cfg pol r0 acts).st.workers s).inProg) :
+    0 < ip.firstAt ∧ ip.firstAt ≤ (Runner.run cfg pol r0 acts).now ∧
+    (ip.attempts = 0 → ip.lastExc = none ∧ ip.lastFailedAt = none) ∧
+    (ip.attempts ≠ 0 → ∃ tf exc d, ip.lastFailedAt = some tf ∧ ip.lastExc = some exc ∧ ip.firstAt ≤ tf ∧
+        tf ≤ (Runner.run cfg pol r0 acts).now ∧ retryDecision cfg pol s (tf - ip.firstAt) ip.attempts exc = .retry d) := by
+  have h := ((C05_accounting_invariant cfg pol r0 h0 acts hs).st s).2.1 ip hip
+  have h1 := h.1 ip.firstAt rfl
+  refine ⟨h1.1, h1.2, h.2.1, fun hk => ?_⟩
+  obtain ⟨t0, tf, exc, d, e1, e2, e3, e4, e5, e6⟩ := h.2.2 hk
+  simp only [InProg.acct, Option.some.injEq] at e1 e2 e3 e6
+  subst e1
+  exact ⟨tf, exc, d, e2, e3, e4, e5, e6⟩
+
+/-! ### M1 × M2: composed policies as the engine's oracle -/
+
+/-- the engine-side oracle of composed policies: step `s` has policy `p s`; the jitter draw of step `s` at failure `k` is
+`u s k` (the seed is `sha256(run_id:step:failures)`); the delay is rounded to the model's integral seconds by `rd` -/
+def C05.oracle (p : Nat → Composed) (u : Nat → Nat → Rat) (rd : Rat → Nat) : Engine.Policy :=
+  fun s el k e => match (p s).next (el : Rat) k e (u s k) with | none => .stop | some d => .retry (rd d)
+
+theorem C05.oracle_granted {cfg : Cfg} {p : Nat → Composed} {u : Nat → Nat → Rat} {rd : Rat → Nat} {s : Nat} {el : Int}
+    {k exc d : Nat} (h : retryDecision cfg (C05.oracle p u rd) s el k exc = .retry d) :
+    ((p s).next (el : Rat) k exc (u s k)).isSome = true := by
+  unfold retryDecision at h
+  split at h
+  · split at h
+    · simp only [C05.oracle] at h
+      split at h
+      · cases h
+      · rename_i hn; simp [hn]
+    · cases h
+  · cases h
+
+theorem C05.oracle_refused {cfg : Cfg} {p : Nat → Composed} {u : Nat → Nat → Rat} {rd : Rat → Nat} {s : Nat} {el : Int}
+    {k exc : Nat} {c : StepCfg} (hc : cfg.find s = some c) (hr : c.hasRetry = true)
+    (h : ∀ d, retryDecision cfg (C05.oracle p u rd) s el k exc ≠ .retry d) :
+    (p s).next (el : Rat) k exc (u s k) = none := by
+  simp only [retryDecision, hc, hr, ↓reduceIte, C05.oracle] at h
+  cases hn : (p s).next (el : Rat) k exc (u s k) with
+  | none => rfl
+  | some d => rw [hn] at h; exact absurd rfl (h (rd d))
+
+/-- a granted retry lies below every attempt cap of the step's stop tree -/
+theorem C05.granted_lt_cap {cfg : Cfg} {p : Nat → Composed} {u : Nat → Nat → Rat} {rd : Rat → Nat} {s : Nat} {el : Int}
+    {k exc d : Nat} {t : STree} {n : Nat} (hstop : (p s).stop = t.eval) (hcap : t.cap = some n)
+    (h : retryDecision cfg (C05.oracle p u rd) s el k exc = .retry d) : k < n := by
+  have hg := C05.oracle_granted h
+  apply Decidable.byContradiction
+  intro hk
+  have hs : (p s).stop k (el : Rat) ((p s).wait k (u s k)) = true := by
+    rw [hstop]; exact STree.cap_sound _ _ _ t ⟨n, hcap, by omega⟩
+  rw [Policy.next_none_of_stop _ _ _ _ _ hs] at hg
+  cases hg
+
+theorem C05.recOk_lt_cap {cfg : Cfg} {p : Nat → Composed} {u : Nat → Nat → Rat} {rd : Rat → Nat} {s : Nat} {now : Int}
+    {t : STree} {n : Nat} (hstop : (p s).stop = t.eval) (hcap : t.cap = some n) {r : Acct}
+    (h : RecOk cfg (C05.oracle p u rd) now s r) : r.k < max n 1 := by
+  by_cases hk : r.k = 0
+  · omega
+  · obtain ⟨t0, tf, exc, d, _, _, _, _, _, e6⟩ := h.2.2 hk
+    have := C05.granted_lt_cap hstop hcap e6
+    omega
+
+/-- **the attempt budget is never exceeded, anywhere, ever**: if the stop tree of step `s` (any nesting, any other
+limits inside) has attempt cap `n`, then in every reachable state every in-progress invocation of `s` runs with
+`retry_number < max(n,1)`, so does every queued attempt, every record kept in a waiter and every retry scheduled on the
+timer heap, and every `WorkflowFailedEvent` for `s` reports at most `max(n,1)` attempts -/
+theorem C05_budget_never_exceeded (cfg : Cfg) (p : Nat → Composed) (u : Nat → Nat → Rat) (rd : Rat → Nat) (r0 : Runner)
+    (h0 : AcctInv cfg (C05.oracle p u rd) r0) (acts : List Act) (hs : AcctSched cfg (C05.oracle p u rd) r0 acts)
+    (s : Nat) (t : STree) (n : Nat) (hstop : (p s).stop = t.eval) (hcap : t.cap = some n) :
+    (∀ ip ∈ ((Runner.run cfg (C05.oracle p u rd) r0 acts).st.workers s).inProg, ip.attempts < max n 1) ∧
+    (∀ a ∈ ((Runner.run cfg (C05.oracle p u rd) r0 acts).st.workers s).queue, orNat a.attempts 0 < max n 1) ∧
+    (∀ w ∈ ((Runner.run cfg (C05.oracle p u rd) r0 acts).st.workers s).waiters, w.attempts < max n 1) ∧
+    (∀ tm ∈ (Runner.run cfg (C05.oracle p u rd) r0 acts).heap, ∀ att, tm.tick = .addEvent att (some s) →
+        orNat att.attempts 0 < max n 1) ∧
+    (∀ exc a el, Pub.failed s exc a el ∈ (Runner.run cfg (C05.oracle p u rd) r0 acts).stream → a ≤ max n 1) := by
+  have h := C05_accounting_invariant cfg (C05.oracle p u rd) r0 h0 acts hs
+  refine ⟨fun ip hip => C05.recOk_lt_cap hstop hcap ((h.st s).2.1 ip hip),
+    fun a ha => C05.recOk_lt_cap hstop hcap ((h.st s).1 a ha),
+    fun w hw => C05.recOk_lt_cap hstop hcap ((h.st s).2.2 w hw), ?_, ?_⟩
+  · intro tm htm att hatt
+    have h1 := (h.heap tm htm).1
+    rw [hatt] at h1
+    exact C05.recOk_lt_cap hstop hcap (h1 s (Or.inr rfl))
+  · intro exc a el hp
+    have h1 : FailRep cfg (C05.oracle p u rd) s exc a el := h.stream _ hp
+    by_cases ha : a = 1
+    · omega
+    · obtain ⟨el', exc', d, _, _, hg⟩ := h1.2.2.2 ha
+      have := C05.granted_lt_cap hstop hcap hg
+      omega
+
+/-- **the reported attempt count is exact**: when moreover the tree's lower bound is the same `n`, every error is
+retryable and the step has the policy configured, every `WorkflowFailedEvent` for `s` on the stream of every reachable
+state reports exactly `max(n,1)` attempts, and a non-negative elapsed time -/
+theorem C05_reported_attempts_exact (cfg : Cfg) (p : Nat → Composed) (u : Nat → Nat → Rat) (rd : Rat → Nat) (r0 : Runner)
+    (h0 : AcctInv cfg (C05.oracle p u rd) r0) (acts : List Act) (hs : AcctSched cfg (C05.oracle p u rd) r0 acts)
+    (s : Nat) (t : STree) (n : Nat) (hstop : (p s).stop = t.eval) (hcap : t.cap = some n) (hlo : t.lo = some n)
+    (hre : ∀ r, (p s).retry = some r → ∀ e, r e = true) (c : StepCfg) (hc : cfg.find s = some c) (hr : c.hasRetry = true)
+    (exc a : Nat) (el : Int) (hp : Pub.failed s exc a el ∈ (Runner.run cfg (C05.oracle p u rd) r0 acts).stream) :
+    a = max n 1 ∧ 0 ≤ el := by
+  have h := C05_accounting_invariant cfg (C05.oracle p u rd) r0 h0 acts hs
+  have h1 : FailRep cfg (C05.oracle p u rd) s exc a el := h.stream _ hp
+  have hle := (C05_budget_never_exceeded cfg p u rd r0 h0 acts hs s t n hstop hcap).2.2.2.2 exc a el hp
+  have hnone := C05.oracle_refused hc hr h1.2.2.1
+  rw [Policy.next_retryable _ _ _ _ _ (fun r hr' => hre r hr' exc)] at hnone
+  have hstopped : t.eval a (el : Rat) ((p s).wait a (u s a)) = true := by
+    rw [← hstop]
+    by_cases hs' : (p s).stop a (el : Rat) ((p s).wait a (u s a)) = true
+    · exact hs'
+    · simp [hs'] at hnone
+  obtain ⟨m, hm, hma⟩ := STree.lo_sound _ _ _ t hstopped
+  rw [hlo] at hm; injection hm with hm
+  have := h1.1
+  exact ⟨by omega, h1.2.1⟩
+
+/-- **a step without a retry policy is executed once per event**: in every reachable state its in-progress invocations run
+with retry number `0`, and a `WorkflowFailedEvent` for it reports one attempt -/
+theorem C05_no_policy_single_attempt (cfg : Cfg) (pol : Policy) (r0 : Runner) (h0 : AcctInv cfg pol r0) (acts : List Act)
+    (hs : AcctSched cfg pol r0 acts) (s : Nat) (hno : ∀ c, cfg.find s = some c → c.hasRetry = false) :
+    (∀ ip ∈ ((Runner.run cfg pol r0 acts).st.workers s).inProg, ip.attempts = 0) ∧
+    (∀ exc a el, Pub.failed s exc a el ∈ (Runner.run cfg pol r0 acts).stream → a = 1) := by
+  have h := C05_accounting_invariant cfg pol r0 h0 acts hs
+  have hnever : ∀ el k exc d, retryDecision cfg pol s el k exc ≠ .retry d := by
+    intro el k exc d hd
+    unfold retryDecision at hd
+    split at hd
+    · rename_i c hc; simp [hno c hc] at hd
+    · cases hd
+  constructor
+  · intro ip hip
+    apply Decidable.byContradiction
+    intro hk
+    obtain ⟨_, _, _, _, _, _, _, _, _, e6⟩ := ((h.st s).2.1 ip hip).2.2 hk
+    exact hnever _ _ _ _ e6
+  · intro exc a el hp
+    have h1 : FailRep cfg pol s exc a el := h.stream _ hp
+    apply Decidable.byContradiction
+    intro ha
+    obtain ⟨_, _, _, _, _, hg⟩ := h1.2.2.2 ha
+    exact hnever _ _ _ _ hg
+
+/-- **`stop_after_delay` over every history**: if the stop condition of `s` holds whenever `d` seconds have elapsed
+(a delay limit `d` anywhere on an `any`-path), every retry in every reachable state was granted while LESS than `d` seconds
+had elapsed between the first attempt and the failure it follows; if conversely the condition holds only then (and errors
+are retryable), a `WorkflowFailedEvent` is issued only once at least `d` seconds have elapsed -/
+theorem C05_delay_budget_reachable (cfg : Cfg) (p : Nat → Composed) (u : Nat → Nat → Rat) (rd : Rat → Nat) (r0 : Runner)
+    (h0 : AcctInv cfg (C05.oracle p u rd) r0) (acts : List Act) (hs : AcctSched cfg (C05.oracle p u rd) r0 acts)
+    (s : Nat) (d : Rat) :
+    ((∀ k el up, d ≤ el → (p s).stop k el up = true) →
+      ∀ ip ∈ ((Runner.run cfg (C05.oracle p u rd) r0 acts).st.workers s).inProg, ip.attempts ≠ 0 →
+        ∃ tf, ip.lastFailedAt = some tf ∧ ((tf - ip.firstAt : Int) : Rat) < d) ∧
+    ((∀ k el up, (p s).stop k el up = true → d ≤ el) → (∀ r, (p s).retry = some r → ∀ e, r e = true) →
+      ∀ c, cfg.find s = some c → c.hasRetry = true →
+      ∀ exc a el, Pub.failed s exc a el ∈ (Runner.run cfg (C05.oracle p u rd) r0 acts).stream → d ≤ (el : Rat)) := by
+  have h := C05_accounting_invariant cfg (C05.oracle p u rd) r0 h0 acts hs
+  constructor
+  · intro hd ip hip hk
+    obtain ⟨t0, tf, exc, dd, e1, e2, _, _, _, e6⟩ := ((h.st s).2.1 ip hip).2.2 hk
+    simp only [InProg.acct, Option.some.injEq] at e1 e2 e6
+    subst e1
+    refine ⟨tf, e2, ?_⟩
+    have hg := C05.oracle_granted e6
+    apply Rat.not_le.mp
+    intro hle
+    rw [Policy.next_none_of_stop _ _ _ _ _ (hd _ _ _ hle)] at hg
+    cases hg
+  · intro hd hre c hc hr exc a el hp
+    have h1 : FailRep cfg (C05.oracle p u rd) s exc a el := h.stream _ hp
+    have hnone := C05.oracle_refused hc hr h1.2.2.1
+    rw [Policy.next_retryable _ _ _ _ _ (fun r hr' => hre r hr' exc)] at hnone
+    by_cases hs' : (p s).stop a (el : Rat) ((p s).wait a (u s a)) = true
+    · exact hd _ _ _ hs'
+    · simp [hs'] at hnone
+
+/-- **every `StepFailedEvent` the reducer ever creates is exact**: at a reachable state, whatever tick is processed, a
+failure routed to a `@catch_error` handler carries `attempts ≥ 1`, `elapsed ≥ 0`, was refused a retry by the step's policy at
+exactly `(elapsed, attempts, exception)`, and — unless it is the first failure — retry `attempts − 1` had been granted -/
+theorem C05_step_failed_event_exact (cfg : Cfg) (pol : Policy) (r0 : Runner) (h0 : AcctInv cfg pol r0) (acts : List Act)
+    (hs : AcctSched cfg pol r0 acts) (t : Tick) (rest : List Tick)
+    (hbuf : (Runner.run cfg pol r0 acts).buf = t :: rest) (att : Attempt) (h : Nat) (fi : FailInfo)
+    (hcmd : Cmd.queueEvent att (some h) none ∈
+      (reduce cfg pol t (Runner.run cfg pol r0 acts).st (Runner.run cfg pol r0 acts).now).2)
+    (hfi : att.ev.fail = some fi) :
+    FailRep cfg pol fi.step fi.exc fi.attempts fi.elapsed := by
+  have hinv := C05_accounting_invariant cfg pol r0 h0 acts hs
+  generalize Runner.run cfg pol r0 acts = r at hinv hbuf hcmd
+  have htick : TickOk cfg pol r.now r.st t := by
+    cases t with
+    | addEvent a tgt => exact hinv.buf (.addEvent a tgt) (by simp [hbuf])
+    | stepResult s w ev res => exact (hinv.sr s w ev res (by simp [hbuf])).2
+    | _ => trivial
+  exact ((reduce_acct cfg pol t r.st r.now hinv.now hinv.st htick).2 _ hcmd).2 h fi rfl rfl hfi
+
+/-! ### `retry_info()` in every reachable state -/
+
+/-- the `RetryAttempt` `run_worker` hands to the invocation of an in-progress entry
+(`retry_number=worker.attempts, first_attempt_at=worker.first_attempt_at, last_exception=…, last_failed_at=…`;
+pinned to the source by `GenRetryAcct.runWorkerRetryKwargs`) -/
+def C05.runWorkerAttempt (ip : InProg) : RetryAttempt :=
+  { retryNumber := ip.attempts, firstAt := ip.firstAt, lastExc := ip.lastExc, lastFailedAt := ip.lastFailedAt.map (fun t => (t : Rat)) }
+
+/-- **`retry_info()` of every invocation of every reachable state**, called at any later clock reading `now'`: the retry
+number is the record's, `elapsed_seconds` is `0` on the first attempt and exactly `now' − first_attempt_at` on a retry,
+`last_exception` / `last_failed_at` are the record's — and `retry_number = 0` iff there is no previous exception -/
+theorem C05_retry_info_reachable (cfg : Cfg) (pol : Policy) (r0 : Runner) (h0 : AcctInv cfg pol r0) (acts : List Act)
+    (hs : AcctSched cfg pol r0 acts) (s : Nat) (ip : InProg)
+    (hip : ip ∈ ((Runner.run cfg pol r0 acts).st.workers s).inProg) (now' : Rat)
+    (hnow : ((Runner.run cfg pol r0 acts).now : Rat) ≤ now') :
+    retryInfo (C05.runWorkerAttempt ip) now' =
+      { retryNumber := ip.attempts, elapsed := if ip.attempts = 0 then 0 else now' - (ip.firstAt : Rat),
+        lastExc := ip.lastExc, lastFailedAt := ip.lastFailedAt.map (fun t => (t : Rat)) } ∧
+    ((retryInfo (C05.runWorkerAttempt ip) now').retryNumber = 0 ↔ (retryInfo (C05.runWorkerAttempt ip) now').lastExc = none) := by
+  obtain ⟨hpos, hle, hz, hnz⟩ := C05_retry_records_wellformed cfg pol r0 h0 acts hs s ip hip
+  have hf0 : ¬ ((ip.firstAt : Rat) = 0) := by
+    rw [Rat.intCast_eq_zero_iff]; omega
+  have hfle : (ip.firstAt : Rat) ≤ now' := Rat.le_trans (Rat.intCast_le_intCast.mpr hle) hnow
+  constructor
+  · simp only [retryInfo, C05.runWorkerAttempt, RetryInfo.mk.injEq, true_and, and_true]
+    by_cases hk : ip.attempts = 0
+    · simp [hk]
+    · have hk' : ¬ ((ip.attempts : Int) ≤ 0) := by omega
+      simp only [hk', hf0, or_self, ↓reduceIte, hk]
+      grind
+  · simp only [retryInfo, C05.runWorkerAttempt]
+    constructor
+    · intro h0'
+      have : ip.attempts = 0 := by omega
+      exact (hz this).1
+    · intro hx
+      apply Decidable.byContradiction
+      intro hk
+      have hk' : ip.attempts ≠ 0 := by omega
+      obtain ⟨_, exc, _, _, e3, _⟩ := hnz hk'
+      rw [e3] at hx; cases hx
+
+/-! Non-vacuity (runner level): a step with `stop_after_attempt(2)`, two failing executions stamped on the runner's clock -/
+def C05.xcfg : Cfg := { steps := [{ name := 1, accepted := [0], numWorkers := 1, hasRetry := true }] }
+def C05.xp : Nat → Composed := fun _ => { retry := none, wait := waitFixed 0, stop := (STree.leaf (.afterAttempt 2)).eval }
+def C05.xpol : Engine.Policy := C05.oracle C05.xp (fun _ _ => 0) (fun _ => 0)
+def C05.xr0 : Runner := Runner.init C05.xcfg initState 5 (some { ty := 0, kind := .start, uid := 1 }) none
+def C05.xacts : List Act :=
+  [.drain, .workerDone 1 0 [.failed 7 5], .drain, .drain, .drain, .workerDone 1 0 [.failed 7 5], .drain]
+
+theorem C05.xinit : AcctInv C05.xcfg C05.xpol C05.xr0 := C05_accounting_init _ _ 5 (by decide) _ _
+
+theorem C05.xsched : AcctSched C05.xcfg C05.xpol C05.xr0 C05.xacts := by
+  refine ⟨trivial, ?_, trivial, trivial, trivial, ?_, trivial, trivial⟩
+  · intro exc t h
+    simp only [List.mem_singleton, Res.failed.injEq] at h
+    rw [h.2]; decide +kernel
+  · intro exc t h
+    simp only [List.mem_singleton, Res.failed.injEq] at h
+    rw [h.2]; decide +kernel
+
+-- after the first failure the retry is in progress with retry number 1, the first-attempt time and the exception …
+example : ((Runner.run C05.xcfg C05.xpol C05.xr0 (C05.xacts.take 4)).st.workers 1).inProg =
+    [{ ev := { ty := 0, kind := .start, uid := 1 }, wid := 0, snapEvents := [], snapWaiters := [],
+       attempts := 1, firstAt := 5, lastExc := some 7, lastFailedAt := some 5 }] := by decide +kernel
+-- … and after the second the run has failed with `attempts = 2`
+example : (Runner.run C05.xcfg C05.xpol C05.xr0 C05.xacts).stream.filter (fun p => match p with | .failed .. => true | _ => false)
+    = [.failed 1 7 2 0] := by decide +kernel
+example (exc a : Nat) (el : Int) (hp : Pub.failed 1 exc a el ∈ (Runner.run C05.xcfg C05.xpol C05.xr0 C05.xacts).stream) :
+    a = 2 ∧ 0 ≤ el := by
+  have := C05_reported_attempts_exact C05.xcfg C05.xp (fun _ _ => 0) (fun _ => 0) C05.xr0 C05.xinit C05.xacts C05.xsched 1
+    (.leaf (.afterAttempt 2)) 2 rfl (by decide +kernel) (by decide +kernel) (by intro r h; cases h) _ rfl rfl exc a el hp
+  simpa using this
+example : Policy.retryInfo { retryNumber := 2, firstAt := 10, lastExc := some 7, lastFailedAt := some 12 } 15 =
+    { retryNumber := 2, elapsed := 5, lastExc := some 7, lastFailedAt := some 12 } := by decide +kernel
+example : Policy.retryInfo { retryNumber := 0, firstAt := 10 } 15 = { retryNumber := 0, elapsed := 0, lastExc := none, lastFailedAt := none } := by
+  decide +kernel
